@@ -182,6 +182,27 @@ def run():
     pr = ck.prove()
     if "error" in info:
         ck.coverage["translator_error"] = info["error"]
+    # The two open findings have a prepared fixed state: the model is parameterised by what the source looks like
+    # (Gen/GenC10Std.v head_cfg).  When the translator sees the repaired shape, the finding is treated as FIXED for this run
+    # (no classifier returns it, its replay must be rejected, the full-strength branch of c10_head_* is the one proved).
+    cfg = info.get("cfg") if "error" not in info else None
+    ck.coverage["head_cfg"] = cfg
+    fixed_by_shape = {}
+    if cfg:
+        for fid, flag, rel in ((F2, "that_rejected", "prqlc/prqlc/src/semantic/lowering.rs"), (F3, "parent_walk", "prqlc/prqlc/src/semantic/resolver/names.rs")):
+            if cfg[flag]:
+                try:
+                    import subprocess
+                    from ..common import REPO
+                    last = subprocess.run(["git", "-C", REPO, "log", "-1", "--format=%h %s", "--", rel], capture_output=True, text=True, timeout=30).stdout.strip()
+                except Exception:
+                    last = ""
+                for f in ck.findings:
+                    if f["id"] == fid and f.get("status", "open") == "open":
+                        f["status"] = "fixed"
+                        f["commit"] = last or "(repaired shape seen in %s)" % rel
+                        fixed_by_shape[fid] = f["commit"]
+    ck.coverage["findings_fixed_by_source_shape"] = fixed_by_shape
     g = c10_gen.Gen(ck.rng)
     nprog = ck.n(260, 2500)
     pnames = info.get("param_names", {}) if "error" not in info else {}
@@ -201,7 +222,7 @@ def run():
         refs = g.refs(final)
         for txt, ident, exp in (g.r.sample(refs, min(3, len(refs))) if refs else []):
             cases.append({"stream": "well-scoped", "src": p.text(extra=["select {%s}" % txt]), "kind": "ref", "pi": pi,
-                          "coq": "lower_ref %s %s" % (coq_scope(p, final), coq_ident(ident)),
+                          "coq": "lower_ref head_cfg %s %s" % (coq_scope(p, final), coq_ident(ident)),
                           "expect": exp, "frame": final.describe(), "ref": txt})
         root_names = [n for n, _ in p.root]
         for k in range(1, len(p.frames)):
@@ -216,14 +237,14 @@ def run():
                     ident = (["this"], d) if sk == "join-cond" else ([], d)
                     that = c10_gen.Frame([c10_gen.Input("w", [], True, c10_gen.TABLES["w"])]) if sk == "join-cond" else None
                     cases.append({"stream": "edit-a-dropped-column", "src": p.text(upto=k, extra=[c10_gen.SITES[sk] % d]), "kind": "edit", "pi": pi,
-                                  "coq": "lower_ref %s %s" % (coq_scope(p, fr, that), coq_ident(ident)),
+                                  "coq": "lower_ref head_cfg %s %s" % (coq_scope(p, fr, that), coq_ident(ident)),
                                   "site": sk, "name": d, "frame": fr.describe()})
             # (b) bare name known to two inputs
             amb = [n for n in dict.fromkeys(fr.all_cols()) if fr.count(n) >= 2]
             for n in amb[:2]:
                 sk = g.pick([s for s in site_kinds if s != "join-cond"])
                 cases.append({"stream": "edit-b-ambiguous-name", "src": p.text(upto=k, extra=[c10_gen.SITES[sk] % n]), "kind": "edit", "pi": pi,
-                              "coq": "lower_ref %s %s" % (coq_scope(p, fr), coq_ident(([], n))),
+                              "coq": "lower_ref head_cfg %s %s" % (coq_scope(p, fr), coq_ident(([], n))),
                               "site": sk, "name": n, "frame": fr.describe()})
         # (c) (d): per transform step of the program
         for k, st in enumerate(p.steps):
@@ -305,7 +326,7 @@ def run():
                           "site": site + ":let-constant", "name": kname})
         # control: the constant is fine as a value
         cases.append({"stream": "well-scoped", "src": head + "\n" + main + " | derive {zz = %s}" % kname, "kind": "value", "pi": pi,
-                      "coq": "lower_ref %s ([], %s)" % (sc, cs(kname)), "ref": kname})
+                      "coq": "lower_ref head_cfg %s ([], %s)" % (sc, cs(kname)), "ref": kname})
 
     # (a'/b') inside a join CONDITION, with both operands fully known: `this` = the frame so far, `that` = the joined source
     for pi, p in enumerate(progs):
@@ -327,7 +348,7 @@ def run():
             if qual is not None:
                 conds.append("(%s == %s.%s && %s > 0)" % (qual[0], alias, other, n))
             cases.append({"stream": "edit-b-ambiguous-name", "src": p.text(upto=k, extra=["join %s%s %s" % (g.pick(["", "side:left "]), rtxt, g.pick(conds))]),
-                          "kind": "edit", "pi": pi, "coq": "lower_ref %s %s" % (coq_scope(p, fr, right), coq_ident(([], n))),
+                          "kind": "edit", "pi": pi, "coq": "lower_ref head_cfg %s %s" % (coq_scope(p, fr, right), coq_ident(([], n))),
                           "site": "join-condition(this+that)", "name": n, "frame": fr.describe()})
             # well-scoped counterpart: the qualified spellings resolve, each to its own side
             cases.append({"stream": "well-scoped", "src": p.text(upto=k, extra=["join %s (this.%s == that.%s)" % (rtxt, n, n)]), "kind": "base-variant", "pi": pi,
@@ -337,7 +358,7 @@ def run():
             if cand:
                 d = g.pick(cand)
                 cases.append({"stream": "edit-a-dropped-column", "src": p.text(upto=k, extra=["join %s (%s == %s.%s)" % (rtxt, d, alias, other)]),
-                              "kind": "edit", "pi": pi, "coq": "lower_ref %s %s" % (coq_scope(p, fr, right), coq_ident(([], d))),
+                              "kind": "edit", "pi": pi, "coq": "lower_ref head_cfg %s %s" % (coq_scope(p, fr, right), coq_ident(([], d))),
                               "site": "join-condition(this+that)", "name": d, "frame": fr.describe()})
 
     # (f) a module or relation name where a value is required (repair a131b2a; was C10-F1), and the bare name `that`
@@ -361,7 +382,7 @@ def run():
             if sk == "join-cond" and (what == "bare-that" or "w" in p.used_tables or len(fr.inputs) >= 3):
                 continue
             cases.append({"stream": "edit-f-module-or-relation-as-value", "src": decls + "\n" + p.text(upto=k, extra=[site % txt]), "kind": "edit", "pi": pi,
-                          "coq": "lower_ref_in %s %s %s" % ("true" if interp else "false", coq_scope(p2, fr, that), coq_ident(ident)),
+                          "coq": "lower_ref_in head_cfg %s %s %s" % ("true" if interp else "false", coq_scope(p2, fr, that), coq_ident(ident)),
                           "site": sk, "name": txt, "what": what, "interp": interp, "frame": fr.describe()})
 
     # (g) declarations inside modules: a name in a relation (or value) position of `let q = (..)` inside module m / m.inner,
@@ -370,11 +391,11 @@ def run():
         ms = mc.coq_ms()
         idn = "([], %s)" % cs(mc.n)
         if mc.site == "value":
-            coq = "lower_ref_m %s %s" % (ms, idn)
+            coq = "lower_ref_m head_cfg %s %s" % (ms, idn)
         else:
             args = {"from": "[k]", "join": "[k; AScalar; ARel]", "append": "[k; ARel]"}[mc.site]
-            coq = ("let ms := %s in (match rel_arg_kind_m ms %s with Some k => call [%s] %s [] | None => AErr EAmbiguous end, "
-                   "match rel_enclosing (ms_mods ms) (shadowed (ms_scope ms)) (ms_cur ms) %s with Some _ => true | None => "
+            coq = ("let ms := %s in (match rel_arg_kind_m head_cfg ms %s with Some k => call [%s] %s [] | None => AErr EAmbiguous end, "
+                   "match rel_enclosing head_cfg (ms_mods ms) (shadowed (ms_scope ms)) (ms_cur ms) %s with Some _ => true | None => "
                    "match mlookup (ms_mods ms) (shadowed (ms_scope ms)) %s with [] => false | _ => true end end)") % (ms, idn, cs(mc.site), args, idn, idn)
         cases.append({"stream": "modules", "src": mc.text(), "kind": "module", "pi": None, "coq": coq, "mc": mc, "site": mc.site})
 
@@ -417,7 +438,7 @@ def run():
         # C10-F2: the model itself predicts the passthrough, and since a131b2a that is only the bare name `that` outside a
         # join condition (Props/C10.v passthrough_only_bare_that), as an expression or as an interpolated item of an s-string;
         # interpolated RELATION names are spliced by design and never reach this classifier
-        if case.get("model_kind") == "OPassthrough" and case.get("impl") == "ok" and case.get("name") == "that":
+        if case.get("model_kind") == "OPassthrough" and case.get("impl") == "ok" and case.get("name") == "that" and not (cfg and cfg["that_rejected"]):
             return F2
         return None
 
@@ -425,7 +446,7 @@ def run():
         # C10-F3: the declaration lives in a PROPER ANCESTOR of the referencing declaration's module (depth >= 2, declared in
         # the parent): resolve_ident drops the outermost module name instead of the innermost one
         d = case.get("module_case") or {}
-        if d.get("depth", 1) >= 2 and d.get("where") == "parent":
+        if d.get("depth", 1) >= 2 and d.get("where") == "parent" and not (cfg and cfg["parent_walk"]):
             return F3
         return None
 
